@@ -1,14 +1,327 @@
 /-
 C06 — Feed reads return exactly what the statement denotes over its own storage (property theorems).
+
+Objects: `parse` = the model of `forml/io/dsl/parser.py` + `provider/feed/reader/alchemy.py` as a stack machine emitting
+abstract SQL (ForML.Model.Parser), `evalSql` = the meaning of that SQL, `denote` = the reference denotation of DSL
+statements written from the documentation (ForML.Model.DslDenote), `WF` = well-formed statement over the schemas the
+feed provisions (ForML.Model.ParserWF), `FeedCache.run` = the read path of the SQL feeds with their caches.
+The tables `EXPRESSION / SET / ORDER`, the join options and the LIMIT/OFFSET emission are re-extracted from the live
+code on every run (ForML.Generated.C06Tables); every theorem below is re-checked against them.
 -/
-import ForML.Model.Parser
-import ForML.Model.DslDenote
+import ForML.Lemmas.C06Parse
 import ForML.Model.FeedCache
 
 namespace ForML.C06
 open ForML.Dsl ForML.Rel ForML.Parser ForML.Denote
 
+/-! ### the tables of the live code -/
+
+/-- the operator classes of the modelled fragment -/
+def modelledOps : List Op :=
+  [.lt, .le, .gt, .ge, .eq, .ne, .isnull, .notnull, .and, .or, .not, .add, .sub, .mul, .abs, .count, .sum, .min, .max]
+
+/-- every modelled expression class has an `EXPRESSION` entry that accepts SQL operands -/
+theorem C06_expression_total : ∀ op ∈ modelledOps, ∃ sop, exprOp op = some sop ∧ sop ≠ .raises := by decide
+
+/-- every `EXPRESSION` entry emits the SQL operator with the documented meaning of its class -/
+theorem C06_expression_sound (op : Op) (sop : SqlOp) (h : exprOp op = some sop) (hr : sop ≠ .raises) :
+    sop.isAgg = op.isAggregate ∧ (∀ vs, sqlAgg sop vs = dslAgg op vs) ∧ (∀ vs, sqlScalar sop vs = dslScalar op vs) :=
+  ⟨isAgg_eq op sop h hr, sqlAgg_eq_dslAgg op sop h hr, sqlScalar_eq_dslScalar op sop h hr⟩
+
+/-- `generate_join`: the options per join kind (RIGHT = LEFT with the sides swapped; CROSS gets `full=True`) -/
+theorem C06_join_table :
+    joinOpt .inner = some (false, false, false) ∧ joinOpt .left = some (false, true, false) ∧
+    joinOpt .right = some (false, true, true) ∧ joinOpt .full = some (true, false, false) ∧
+    joinOpt .cross = some (true, false, false) ∧ Generated.C06.crossOnTrue = true := by decide
+
+/-- `SET` and `ORDER` map every kind / direction to its SQL counterpart -/
+theorem C06_set_order_tables :
+    (∀ k : SetKind, setOpOf k = some (setOfKind k)) ∧ (∀ d : Dir, orderOf d = some (dirOf d)) := by
+  constructor
+  · intro k; cases k <;> decide
+  · intro d; cases d <;> decide
+
 /-- the `generate_query` model agrees with what the live code emitted on the probed `Rows` -/
 theorem C06_rows_probe : ∀ p ∈ Generated.C06.rowsProbe, rowsOpts (some p.1) = p.2 := by decide
+
+/-! ### parsing never fails -/
+
+/-- Every visit of a well-formed statement pushes exactly one symbol — the translation `compile s` — onto the current
+context, whatever lies below it, and leaves the suspended contexts and the registered origins as they were. -/
+theorem C06_visit_one_symbol (srcs : Sources) (s : Source) (h : WF srcs s = true) :
+    ∃ q, compile srcs s = some q ∧
+      ∀ (syms : List Sym) (origs : List (Source × String)) (stk : List (Option Ctx)),
+        visitSource srcs s ⟨some ⟨syms, origs⟩, stk⟩ = .ok ⟨some ⟨.src q :: syms, origs⟩, stk⟩ := by
+  simp only [WF, Bool.and_eq_true] at h
+  obtain ⟨q, hq, _, hv⟩ := visit_out srcs h.1 s h.2
+  refine ⟨q, hq, ?_⟩
+  intro syms origs stk
+  have hreg : regOrigins srcs s = [] := by
+    cases s <;> simp [wfOut] at h <;> rfl
+  simpa [hreg] using hv syms origs stk
+
+/-- `Reader._parse_statement` on a well-formed statement returns the translation: the visitor ends with exactly one
+symbol in the context it was started in and an empty stack of suspended contexts (`fetch` and `__exit__` succeed) -/
+theorem C06_parse_spec (srcs : Sources) (s : Source) (h : WF srcs s = true) :
+    ∃ q, compile srcs s = some q ∧ parse srcs s = .ok q := by
+  obtain ⟨q, hq, hv⟩ := C06_visit_one_symbol srcs s h
+  refine ⟨q, hq, ?_⟩
+  have := hv [] [] [none]
+  simp [parse, enter, this, pop, exit, bind, Except.bind]
+
+/-- parsing a well-formed statement over provisioned tables never fails -/
+theorem C06_parse_total (srcs : Sources) (s : Source) (h : WF srcs s = true) : ∃ q, parse srcs s = .ok q := by
+  obtain ⟨q, _, hp⟩ := C06_parse_spec srcs s h
+  exact ⟨q, hp⟩
+
+/-! ### the rows returned are the rows denoted -/
+
+/-- rows the database returns for what the parser emitted (`none`: parsing or evaluation failed) -/
+def readRows (srcs : Sources) (s : Source) (db : Db) : Option ORel :=
+  match parse srcs s with
+  | .ok q => evalSql q db
+  | .error _ => none
+
+/-- full strength: for every well-formed statement and every storage content -/
+def C06_denotation_full : Prop :=
+  ∀ (srcs : Sources) (s : Source), WF srcs s = true → ∀ db : Db, readRows srcs s db = denote srcs s db
+
+/-- holds for every statement and every content on which each CROSS join has two non-empty or two empty sides: the
+excluded region is *exactly* the known finding (CROSS rendered as FULL OUTER JOIN ON true, one side empty) -/
+theorem C06_denotation_partial (srcs : Sources) (s : Source) (h : WF srcs s = true) (db : Db)
+    (hc : crossBalanced srcs s db = true) : readRows srcs s db = denote srcs s db := by
+  obtain ⟨q, hq, hp⟩ := C06_parse_spec srcs s h
+  simp only [WF, Bool.and_eq_true] at h
+  obtain ⟨q', hq', _, hev⟩ := out_spec srcs s h.2
+  rw [hq] at hq'; injection hq' with hq'; subst hq'
+  simp [readRows, hp, evalSql, denote, hev db hc]
+
+/-- in particular for every statement without a CROSS join, over every content -/
+theorem C06_denotation_nocross (srcs : Sources) (s : Source) (h : WF srcs s = true) (hc : noCross s = true) (db : Db) :
+    readRows srcs s db = denote srcs s db :=
+  C06_denotation_partial srcs s h db (crossBalanced_of_noCross srcs db s hc)
+
+/-! ### witnesses -/
+
+namespace Witness
+def A : Source := .table "A" [("id", .integer), ("x", .integer)]
+def B : Source := .table "B" [("id", .integer), ("y", .integer)]
+def srcs : Sources := [(A, "a"), (B, "b")]
+
+/-- `A.cross_join(B).select(A.x, B.y)` -/
+def crossStmt : Source :=
+  .query (.join A B .cross .none) (.cons (.elem A "x") (.cons (.elem B "y") .nil)) .none .nil .none .nil none
+
+/-- one row in `a`, none in `b` -/
+def crossDb : Db := [("a", ⟨["id", "x"], [[.int 1, .int 10]]⟩), ("b", ⟨["id", "y"], []⟩)]
+
+/-- `A.left_join(r, A.x == r.id).select(A.id, Count(r.x).alias('n')).where(A.id > 0).groupby(A.id).orderby(A.id)`
+with `r = A.reference('r')`: a self-join through a reference, a pre-aggregation filter, grouping, an aggregate,
+an alias and an ordering -/
+def R : Source := .ref A "r"
+def selfStmt : Source :=
+  .query (.join A R .left (.some (.expr .eq (.cons (.elem A "x") (.cons (.elem R "id") .nil)))))
+    (.cons (.elem A "id") (.cons (.alias (.expr .count (.cons (.elem R "x") .nil)) "n") .nil))
+    (.some (.expr .gt (.cons (.elem A "id") (.cons (.lit (.int 0)) .nil))))
+    (.cons (.elem A "id") .nil) .none (.cons (.mk (.elem A "id") .desc) .nil) (some (5, 0))
+
+def selfDb : Db := [("a", ⟨["id", "x"], [[.int 1, .int 2], [.int 2, .int 2], [.int 3, .null]]⟩), ("b", ⟨["id", "y"], []⟩)]
+end Witness
+
+/-- the full statement is false of the code that exists: a CROSS join with exactly one empty side -/
+theorem C06_denotation_counterexample : ¬ C06_denotation_full := by
+  intro h
+  have := h Witness.srcs Witness.crossStmt (by decide) Witness.crossDb
+  revert this
+  decide
+
+/-- what the witness shows: nothing is denoted, one NULL-extended row is returned -/
+example : denote Witness.srcs Witness.crossStmt Witness.crossDb = some ⟨[some "x", some "y"], []⟩ ∧
+    readRows Witness.srcs Witness.crossStmt Witness.crossDb = some ⟨[some "x", some "y"], [[.int 10, .null]]⟩ := by
+  decide
+
+/-- non-vacuity of `C06_denotation_partial` with a CROSS join: both sides non-empty -/
+example : WF Witness.srcs Witness.crossStmt = true ∧
+    crossBalanced Witness.srcs Witness.crossStmt
+      [("a", ⟨["id", "x"], [[.int 1, .int 10]]⟩), ("b", ⟨["id", "y"], [[.int 1, .int 5], [.int 2, .null]]⟩)] = true ∧
+    denote Witness.srcs Witness.crossStmt
+      [("a", ⟨["id", "x"], [[.int 1, .int 10]]⟩), ("b", ⟨["id", "y"], [[.int 1, .int 5], [.int 2, .null]]⟩)] =
+      some ⟨[some "x", some "y"], [[.int 10, .int 5], [.int 10, .null]]⟩ := by
+  decide
+
+/-- non-vacuity of `C06_denotation_nocross`: a well-formed statement without CROSS with a non-trivial denotation -/
+example : WF Witness.srcs Witness.selfStmt = true ∧ noCross Witness.selfStmt = true ∧
+    denote Witness.srcs Witness.selfStmt Witness.selfDb =
+      some ⟨[some "id", some "n"], [[.int 3, .int 0], [.int 2, .int 1], [.int 1, .int 1]]⟩ := by
+  decide
+
+/-! ### reads do not depend on other feeds, other storages or earlier reads -/
+
+open ForML.FeedCache (Feed State FeedKind run step storageOf)
+
+/-- what every read of a history should return: a fresh evaluation over the feed's own storage at read time -/
+def fresh (feeds : List Feed) : List Db → List FeedCache.Op → List (Option ORel)
+  | _, [] => []
+  | dbs, .read i s :: ops =>
+    (match feeds[i]? with
+     | none => none
+     | some f => readRows f.srcs s (dbs.getD f.storage [])) :: fresh feeds dbs ops
+  | dbs, .mutate i db :: ops => fresh feeds (dbs.set i db) ops
+  | dbs, .restart :: ops => fresh feeds dbs ops
+
+/-- full strength: in every history every read returns the fresh evaluation -/
+def C06_independence_full : Prop :=
+  ∀ (feeds : List Feed) (dbs : List Db) (ops : List FeedCache.Op), run feeds { storages := dbs } ops = fresh feeds dbs ops
+
+namespace Witness
+def sel : Source := .query A (.cons (.elem A "x") .nil) .none .nil .none .nil none
+def db1 : Db := [("a", ⟨["id", "x"], [[.int 1, .int 10]]⟩)]
+def db2 : Db := [("a", ⟨["id", "x"], [[.int 1, .int 20]]⟩)]
+def feedOn (i : Nat) : Feed := { kind := .alchemy, srcs := [(A, "a")], storage := i }
+def lazyOn (i : Nat) : Feed := { kind := .lazy, srcs := [(A, "a")], storage := i }
+end Witness
+
+/-- `read; mutate storage; read`: the second read returns the rows of the first (result cache keyed by the SQL text) -/
+theorem C06_stale_counterexample :
+    run [Witness.feedOn 0] { storages := [Witness.db1] } [.read 0 Witness.sel, .mutate 0 Witness.db2, .read 0 Witness.sel] ≠
+      fresh [Witness.feedOn 0] [Witness.db1] [.read 0 Witness.sel, .mutate 0 Witness.db2, .read 0 Witness.sel] := by
+  decide
+
+/-- the stale rows also survive a restart (file cache under the ForML home directory) -/
+theorem C06_stale_restart_counterexample :
+    run [Witness.feedOn 0] { storages := [Witness.db1] }
+        [.read 0 Witness.sel, .mutate 0 Witness.db2, .restart, .read 0 Witness.sel] ≠
+      fresh [Witness.feedOn 0] [Witness.db1] [.read 0 Witness.sel, .mutate 0 Witness.db2, .restart, .read 0 Witness.sel] := by
+  decide
+
+/-- two feeds over two storages with equally named tables: the second feed gets the first feed's rows -/
+theorem C06_crossfeed_counterexample :
+    run [Witness.feedOn 0, Witness.feedOn 1] { storages := [Witness.db1, Witness.db2] }
+        [.read 0 Witness.sel, .read 1 Witness.sel] ≠
+      fresh [Witness.feedOn 0, Witness.feedOn 1] [Witness.db1, Witness.db2] [.read 0 Witness.sel, .read 1 Witness.sel] := by
+  decide
+
+/-- lazy feeds: an origin registered once in the process-global backend is never refreshed — a *different* statement
+read after the storage changed still sees the old table content -/
+theorem C06_lazy_counterexample :
+    run [Witness.lazyOn 0] { storages := [Witness.db1] }
+        [.read 0 Witness.sel, .mutate 0 Witness.db2, .read 0 (.query Witness.A (.cons (.elem Witness.A "id") (.cons (.elem Witness.A "x") .nil)) .none .nil .none .nil none)] ≠
+      fresh [Witness.lazyOn 0] [Witness.db1]
+        [.read 0 Witness.sel, .mutate 0 Witness.db2, .read 0 (.query Witness.A (.cons (.elem Witness.A "id") (.cons (.elem Witness.A "x") .nil)) .none .nil .none .nil none)] := by
+  decide
+
+/-- lazy feeds: a table none of whose columns is used (here the right side of a CROSS join) is never registered in
+the backend, the read fails although the statement denotes rows -/
+theorem C06_lazy_unused_counterexample :
+    run [{ kind := .lazy, srcs := Witness.srcs, storage := 0 }]
+        { storages := [[("a", ⟨["id", "x"], [[.int 1, .int 10]]⟩), ("b", ⟨["id", "y"], [[.int 1, .int 5]]⟩)]] }
+        [.read 0 (.query (.join Witness.A Witness.B .cross .none) (.cons (.elem Witness.A "x") .nil) .none .nil .none .nil none)] = [none] ∧
+      fresh [{ kind := .lazy, srcs := Witness.srcs, storage := 0 }]
+        [[("a", ⟨["id", "x"], [[.int 1, .int 10]]⟩), ("b", ⟨["id", "y"], [[.int 1, .int 5]]⟩)]]
+        [.read 0 (.query (.join Witness.A Witness.B .cross .none) (.cons (.elem Witness.A "x") .nil) .none .nil .none .nil none)] =
+        [some ⟨[some "x"], [[.int 10]]⟩] := by
+  decide
+
+theorem C06_independence_counterexample : ¬ C06_independence_full := by
+  intro h
+  exact C06_stale_counterexample (h _ _ _)
+
+/-- histories without a storage change -/
+def noMutate : List FeedCache.Op → Bool
+  | [] => true
+  | .mutate _ _ :: _ => false
+  | _ :: ops => noMutate ops
+
+/-- all feeds are alchemy feeds on the storage `k` -/
+def allOn (k : Nat) (feeds : List Feed) : Bool := feeds.all (fun f => f.kind == .alchemy && f.storage == k)
+
+/-- the caches only hold what a fresh evaluation over `db` yields -/
+structure CacheOk (dbs : List Db) (k : Nat) (st : State) : Prop where
+  stor : st.storages = dbs
+  mem : ∀ q v, st.mem.lookup q = some v → evalSql q (dbs.getD k []) = some v
+  disk : ∀ q v, st.disk.lookup q = some v → evalSql q (dbs.getD k []) = some v
+
+theorem lookup_cons_sql (q q' : SqlSel) (v : ORel) (l : List (SqlSel × ORel)) :
+    ((q, v) :: l).lookup q' = if q' = q then some v else l.lookup q' := by
+  by_cases h : q' = q
+  · subst h; simp [List.lookup]
+  · have : (q' == q) = false := by simpa using h
+    simp [List.lookup, this, h]
+
+theorem read_fresh (dbs : List Db) (k : Nat) (st : State) (hst : CacheOk dbs k st) (f : Feed)
+    (hk : f.kind = .alchemy) (hs : f.storage = k) (s : Source) :
+    (FeedCache.read st f s).2 = readRows f.srcs s (dbs.getD k []) ∧ CacheOk dbs k (FeedCache.read st f s).1 := by
+  unfold FeedCache.read readRows
+  cases hp : parse f.srcs s with
+  | error e => exact ⟨rfl, hst⟩
+  | ok q =>
+    simp only [hk, storageOf, hs]
+    have hne : (FeedKind.alchemy = FeedKind.lazy) = False := by simp
+    simp only [hne, decide_false, Bool.false_and, Bool.false_eq_true, if_false]
+    cases hm : st.mem.lookup q with
+    | some v => exact ⟨(hst.mem q v hm).symm, hst⟩
+    | none =>
+      cases hd : st.disk.lookup q with
+      | some v =>
+        refine ⟨(hst.disk q v hd).symm, ⟨hst.stor, ?_, hst.disk⟩⟩
+        intro q' v' h'
+        rw [lookup_cons_sql] at h'
+        by_cases hq : q' = q
+        · subst hq; simp at h'; subst h'; exact hst.disk _ _ hd
+        · simp [hq] at h'; exact hst.mem q' v' h'
+      | none =>
+        cases he : evalSql q (st.storages.getD k []) with
+        | none =>
+          refine ⟨?_, hst⟩
+          rw [← hst.stor, he]
+        | some v =>
+          have he' : evalSql q (dbs.getD k []) = some v := by rw [← hst.stor]; exact he
+          refine ⟨he'.symm, ⟨hst.stor, ?_, ?_⟩⟩
+          · intro q' v' h'
+            rw [lookup_cons_sql] at h'
+            by_cases hq : q' = q
+            · subst hq; simp at h'; subst h'; exact he'
+            · simp [hq] at h'; exact hst.mem q' v' h'
+          · intro q' v' h'
+            rw [lookup_cons_sql] at h'
+            by_cases hq : q' = q
+            · subst hq; simp at h'; subst h'; exact he'
+            · simp [hq] at h'; exact hst.disk q' v' h'
+
+theorem run_fresh (feeds : List Feed) (dbs : List Db) (k : Nat) (hf : allOn k feeds = true) :
+    ∀ (ops : List FeedCache.Op) (st : State), noMutate ops = true → CacheOk dbs k st → run feeds st ops = fresh feeds dbs ops
+  | [], _, _, _ => rfl
+  | .read i s :: ops, st, hn, hst => by
+    simp only [run, step, fresh]
+    cases hi : feeds[i]? with
+    | none =>
+      simp only [run_fresh feeds dbs k hf ops st (by simpa [noMutate] using hn) hst]
+    | some f =>
+      have hmem : f ∈ feeds := List.mem_of_getElem? hi
+      have hfk := List.all_eq_true.mp hf f hmem
+      simp only [Bool.and_eq_true, beq_iff_eq] at hfk
+      obtain ⟨h1, h2⟩ := read_fresh dbs k st hst f hfk.1 hfk.2 s
+      simp only [h1, hfk.2]
+      rw [run_fresh feeds dbs k hf ops (FeedCache.read st f s).1 (by simpa [noMutate] using hn) h2]
+  | .mutate i db :: ops, st, hn, _ => by simp [noMutate] at hn
+  | .restart :: ops, st, hn, hst => by
+    simp only [run, step, fresh]
+    apply run_fresh feeds dbs k hf ops _ (by simpa [noMutate] using hn)
+    exact ⟨hst.stor, by intro q v h; simp [List.lookup] at h, hst.disk⟩
+
+/-- what holds of the code that exists: as long as the storage does not change and all feeds read the same storage,
+every read (also across restarts) returns the fresh evaluation -/
+theorem C06_independence_partial (feeds : List Feed) (dbs : List Db) (k : Nat) (ops : List FeedCache.Op)
+    (hf : allOn k feeds = true) (hn : noMutate ops = true) :
+    run feeds { storages := dbs } ops = fresh feeds dbs ops :=
+  run_fresh feeds dbs k hf ops _ hn ⟨rfl, by intro q v h; simp [List.lookup] at h, by intro q v h; simp [List.lookup] at h⟩
+
+/-- non-vacuity: a history with a restart and repeated reads through two feeds on one storage -/
+example : allOn 0 [Witness.feedOn 0, Witness.feedOn 0] = true ∧
+    noMutate [.read 0 Witness.sel, .restart, .read 1 Witness.sel, .read 0 Witness.sel] = true ∧
+    run [Witness.feedOn 0, Witness.feedOn 0] { storages := [Witness.db1] }
+      [.read 0 Witness.sel, .restart, .read 1 Witness.sel, .read 0 Witness.sel] =
+      [some ⟨[some "x"], [[.int 10]]⟩, some ⟨[some "x"], [[.int 10]]⟩, some ⟨[some "x"], [[.int 10]]⟩] := by
+  decide
 
 end ForML.C06
